@@ -117,9 +117,9 @@ class StlPastifier(LtlPastifier, StlAstVisitor):
         child_node = self.visit(node.children[0], node_horizon)
         begin, end = bounds_in_default_unit(self.ast, node)
         if horizon > 0:
-            node = TimedOnce(child_node, Interval(begin + horizon, end + horizon))
+            node = self.started_late(TimedOnce(child_node, Interval(begin + horizon, end + horizon)), node_horizon)
         else:
-            node = TimedOnce(child_node, Interval(begin, end))
+            node = self.started_late(TimedOnce(child_node, Interval(begin, end)), node_horizon)
         return node
 
     def visitTimedHistorically(self, node, *args, **kwargs):
@@ -128,7 +128,7 @@ class StlPastifier(LtlPastifier, StlAstVisitor):
         horizon = remaining_horizon - node_horizon
         child_node = self.visit(node.children[0], node_horizon)
         begin, end = bounds_in_default_unit(self.ast, node)
-        node = TimedHistorically(child_node, Interval(begin, end))
+        node = self.started_late(TimedHistorically(child_node, Interval(begin, end)), node_horizon)
         if horizon > 0:
             node = TimedOnce(node, Interval(horizon, horizon))
         return node
@@ -140,7 +140,7 @@ class StlPastifier(LtlPastifier, StlAstVisitor):
         child_node_1 = self.visit(node.children[0], node_horizon)
         child_node_2 = self.visit(node.children[1], node_horizon)
         begin, end = bounds_in_default_unit(self.ast, node)
-        node = TimedSince(child_node_1, child_node_2, Interval(begin, end))
+        node = self.started_late(TimedSince(child_node_1, child_node_2, Interval(begin, end)), node_horizon)
         if horizon > 0:
             node = TimedOnce(node, Interval(horizon, horizon))
         return node
@@ -303,7 +303,7 @@ class StlPastifier(LtlPastifier, StlAstVisitor):
         remaining_horizon = args[0]
         horizon = remaining_horizon - node_horizon
         child_node = self.visit(node.children[0], node_horizon)
-        node = Rise(child_node)
+        node = self.started_late(Rise(child_node), node_horizon)
         if horizon > 0:
             node = TimedOnce(node, Interval(horizon, horizon))
         return node
@@ -313,7 +313,7 @@ class StlPastifier(LtlPastifier, StlAstVisitor):
         remaining_horizon = args[0]
         horizon = remaining_horizon - node_horizon
         child_node = self.visit(node.children[0], node_horizon)
-        node = Fall(child_node)
+        node = self.started_late(Fall(child_node), node_horizon)
         if horizon > 0:
             node = TimedOnce(node, Interval(horizon, horizon))
         return node
@@ -397,7 +397,7 @@ class StlPastifier(LtlPastifier, StlAstVisitor):
         remaining_horizon = args[0]
         horizon = remaining_horizon - node_horizon
         child_node = self.visit(node.children[0], node_horizon)
-        node = Once(child_node)
+        node = self.started_late(Once(child_node), node_horizon)
         if horizon > 0:
             node = TimedOnce(node, Interval(horizon, horizon))
         return node
@@ -407,7 +407,7 @@ class StlPastifier(LtlPastifier, StlAstVisitor):
         remaining_horizon = args[0]
         horizon = remaining_horizon - node_horizon
         child_node = self.visit(node.children[0], node_horizon)
-        node = Previous(child_node)
+        node = self.started_late(Previous(child_node), node_horizon)
         if horizon > 0:
             node = TimedOnce(node, Interval(horizon, horizon))
         return node
@@ -417,7 +417,7 @@ class StlPastifier(LtlPastifier, StlAstVisitor):
         remaining_horizon = args[0]
         horizon = remaining_horizon - node_horizon
         child_node = self.visit(node.children[0], node_horizon)
-        node = StrongPrevious(child_node)
+        node = self.started_late(StrongPrevious(child_node), node_horizon)
         if horizon > 0:
             node = TimedOnce(node, Interval(horizon, horizon))
         return node
@@ -444,7 +444,7 @@ class StlPastifier(LtlPastifier, StlAstVisitor):
         remaining_horizon = args[0]
         horizon = remaining_horizon - node_horizon
         child_node = self.visit(node.children[0], node_horizon)
-        node = Historically(child_node)
+        node = self.started_late(Historically(child_node), node_horizon)
         if horizon > 0:
             node = TimedOnce(node, Interval(horizon, horizon))
         return node
@@ -455,7 +455,7 @@ class StlPastifier(LtlPastifier, StlAstVisitor):
         horizon = remaining_horizon - node_horizon
         child_node_1 = self.visit(node.children[0], node_horizon)
         child_node_2 = self.visit(node.children[1], node_horizon)
-        node = Since(child_node_1, child_node_2)
+        node = self.started_late(Since(child_node_1, child_node_2), node_horizon)
         if horizon > 0:
             node = TimedOnce(node, Interval(horizon, horizon))
         return node
